@@ -16,9 +16,10 @@ def site_of(key):
 def run(tier, lab):
     ck = lib.Check(PROP, tier, "exploration")
     r = lib.tlc("MC_ConnLife", timeout=300, constants={"Devs": "{}"}, want_scn=False)
-    lib.tlc_must_pass(r, "ConnLife strict (ReleasedWhenQuiescent, ReturnsAfterPeerGone under fairness)")
+    lib.tlc_must_pass(r, "ConnLife strict (ReleasedWhenQuiescent, ReturnsAfterPeerGone and SilentPeersExpire under fairness)")
     ck.add_tlc(r, "ConnLife: 2 connections, all interleavings incl. idle expiry, safety + liveness")
-    for dev, want in (("helper_never_exits", "ReleasedWhenQuiescent"), ("listener_never_closed", "ReleasedWhenQuiescent"), ("never_eof", None)):
+    for dev, want in (("helper_never_exits", "ReleasedWhenQuiescent"), ("listener_never_closed", "ReleasedWhenQuiescent"), ("never_eof", None),
+                      ("peek_without_deadline", "SilentPeersExpire")):
         rd = lib.tlc("MC_ConnLife", timeout=300, constants={"Devs": '{"%s"}' % dev}, want_scn=False)
         if rd.violated is None or (want and rd.violated != want):
             raise lib.Infra("deviation %s does not violate the expected ConnLife property (got %s)" % (dev, rd.violated))
@@ -26,7 +27,9 @@ def run(tier, lab):
     silent = None if tier == "thorough" else {"ftp", "smtp", "telnet", "http", "redis", "vnc", "ldap", "adb"}
     scs = life.build(ck, tier, lib.seed() + 1000, silent_services=silent)
     nsilent = sum(1 for s in scs if s.get("ending") == "silent")
-    deaths, reports = life.explore(lab, scs, "c09", settle_ms=5000, idle_ms=33000, rerun_done=True)
+    # final snapshot: after the idle timeout, and - while something is still running - polled up to 3 idle timeouts + slack
+    # (a handler may wait for a passive data connection first and for its peer afterwards: bounded, but more than one timeout)
+    deaths, reports = life.explore(lab, scs, "c09", settle_ms=5000, idle_ms=33000, rerun_done=True, idle_max_ms=100000)
     for sc, banner, site in deaths:
         ck.notes.append("process died during the exploration (C01's territory): %s: %s" % (describe(sc), banner))
     if not reports:
@@ -55,7 +58,7 @@ def run(tier, lab):
                         {"key": key, "extra": extra})
     if final["handlers"] > 0:
         ck.disagree("leak/handler-still-running", "%d handler goroutine(s) still inside handle() after every peer is gone and the idle timeout has passed" % final["handlers"], {})
-    fd_extra = final["fds"] - base["fds"]
+    fd_extra = final["fds"] - base["fds"] - rep.get("held_open_by_lab", 0)     # the lab's own ends of the silent connections
     if fd_extra > 2:
         ck.disagree("leak/descriptors", "%d more descriptors open than before the first connection" % fd_extra, {"base": base["fds"], "final": final["fds"]})
     cpu = rep["idle2"]["cpu_ms"] - rep["idle1"]["cpu_ms"]
@@ -69,7 +72,8 @@ def run(tier, lab):
                    "rule": "same scenarios as C01's exploration (all 24 services, dialogue shapes cut at every stage) ending in peer close, "
                            "half-close, a single datagram, or silence; runtime facts compared with the baseline taken before the first connection"})
     ck.sample(describe(scs[5]))
-    ck.assumptions += ["thresholds: 6 s for a handler to end after close/datagram, 33 s extra for silent connections (30 s idle timeout), "
+    ck.assumptions += ["thresholds: 6 s for a handler to end after close/datagram; silent peers really stay connected: the final snapshot is taken 33 s "
+                       "after the last scenario and, while anything is still running, every 3 s up to 100 s (three idle timeouts in a row), "
                        "400 ms CPU per idle second, 2 descriptors of slack", "goroutines are identified by creation site and innermost honeytrap frame"]
     return ck.finish()
 
